@@ -156,6 +156,8 @@ pub struct Endpoint {
     pub stream_send_window: BTreeMap<u32, i64>,
     /// obligations the peer broke (flow control, frame size, concurrency, ordering)
     pub protocol_errors: Vec<String>,
+    /// responder: streams whose DATA frames are preceded by an empty and a padding-only frame
+    pub pad_streams: std::collections::BTreeSet<u32>,
     pub auto_ack: bool,
     unreturned_conn: i64,
     unreturned_stream: BTreeMap<u32, i64>,
@@ -187,6 +189,7 @@ impl Endpoint {
             conn_send_window: 65535,
             stream_send_window: BTreeMap::new(),
             protocol_errors: vec![],
+            pad_streams: Default::default(),
             auto_ack: true,
             unreturned_conn: 0,
             unreturned_stream: BTreeMap::new(),
